@@ -7,6 +7,7 @@ from dateutil import parser as date_parser
 from dateutil.relativedelta import relativedelta
 from typing import Dict, List, Literal, Any, Callable
 from math import trunc, ceil, floor
+from decimal import Decimal, ROUND_HALF_UP, ROUND_UP, ROUND_DOWN, Context as DecimalContext
 from itertools import zip_longest
 
 
@@ -325,15 +326,16 @@ class AbstractExcelInPython(ABC):
         return result
 
     def _round(self, number: float, num_digits: int):
-        return round(number, int(num_digits))
+        return float(Decimal(format(float(number), '.15g')).quantize(Decimal(1).scaleb(-int(num_digits)), ROUND_HALF_UP,
+                                                           DecimalContext(prec=400)))
 
     def _roundup(self, number: float, num_digits: int):
-        factor = 10 ** num_digits
-        return ceil(number * factor) / factor
+        return float(Decimal(format(float(number), '.15g')).quantize(Decimal(1).scaleb(-int(num_digits)), ROUND_UP,
+                                                           DecimalContext(prec=400)))
 
     def _rounddown(self, number: float, num_digits: int):
-        factor = 10 ** num_digits
-        return floor(number * factor) / factor
+        return float(Decimal(format(float(number), '.15g')).quantize(Decimal(1).scaleb(-int(num_digits)), ROUND_DOWN,
+                                                           DecimalContext(prec=400)))
 
     def _date(self, year: int, month: int, day: int):
         if isinstance(year, str):
